@@ -431,7 +431,12 @@ func (m *Manager) handlePeerHeartbeat(msg *hapb.HeartbeatMessage) {
 			continue
 		}
 
-		if firstContact || sm.State() == SRGStateWaiting || sm.State() == SRGStateActiveSolo {
+		// STANDBY_ALONE is listed although handlePeerLost normally leaves
+		// peerNodeID empty (firstContact): a heartbeat handled between its
+		// peerNodeID reset and sm.PeerLost() yields STANDBY_ALONE with a known
+		// peer, which would otherwise ignore every later heartbeat.
+		if firstContact || sm.State() == SRGStateWaiting || sm.State() == SRGStateActiveSolo ||
+			sm.State() == SRGStateStandbyAlone {
 			transition := sm.PeerDiscovered(peerStatus.Priority, msg.NodeId, SRGState(peerStatus.State))
 			if transition != nil {
 				m.publishTransition(transition)
